@@ -1652,6 +1652,7 @@ func (e *compiledFunctionLiteral) compile() (prg *Program, name unistring.String
 			if enterFunc2Mark != -1 {
 				ef2 := &enterFuncBody{
 					extensible: e.c.scope.dynamic,
+					dynLookup:  e.c.scope.dynLookup,
 					funcType:   e.typ,
 				}
 				e.c.updateEnterBlock(&ef2.enterBlock)
@@ -1673,6 +1674,7 @@ func (e *compiledFunctionLiteral) compile() (prg *Program, name unistring.String
 				ef2 := &enterFuncBody{
 					adjustStack: true,
 					extensible:  e.c.scope.dynamic,
+					dynLookup:   e.c.scope.dynLookup,
 					funcType:    e.typ,
 				}
 				e.c.updateEnterBlock(&ef2.enterBlock)
@@ -1690,6 +1692,7 @@ func (e *compiledFunctionLiteral) compile() (prg *Program, name unistring.String
 		if enterFunc2Mark != -1 {
 			ef2 := &enterFuncBody{
 				extensible: e.c.scope.dynamic,
+				dynLookup:  e.c.scope.dynLookup,
 				funcType:   e.typ,
 			}
 			e.c.updateEnterBlock(&ef2.enterBlock)
